@@ -7,6 +7,7 @@ import (
 	"math/rand"
 	"sync"
 	"sync/atomic"
+	"time"
 
 	"github.com/onheap/eval"
 )
@@ -33,7 +34,7 @@ func init() {
 			if m.C("overlapping_calls") < 10000 {
 				u = append(u, fmt.Sprintf("only %d overlapping calls", m.C("overlapping_calls")))
 			}
-			for _, c := range []string{"histories_sequential", "histories_concurrent", "snapshots_compared", "calls_eval", "calls_tryeval", "calls_dump", "calls_dumptable", "calls_failing", "programs_deep_stack", "programs_big_list_constants", "programs_event_mode", "race_histories", "list_bindings_from_refilled_buffers", "fresh_context_set_flows", "programs_self_recursive", "one_shot_eval_calls"} {
+			for _, c := range []string{"histories_sequential", "histories_concurrent", "snapshots_compared", "calls_eval", "calls_tryeval", "calls_dump", "calls_dumptable", "calls_failing", "programs_deep_stack", "programs_big_list_constants", "programs_event_mode", "race_histories", "list_bindings_from_refilled_buffers", "fresh_context_set_flows", "programs_self_recursive", "one_shot_eval_calls", "flood_overlapping_evaluations"} {
 				if m.C(c) == 0 {
 					u = append(u, c+" = 0")
 				}
@@ -578,6 +579,10 @@ func c07Run(w *W, idx int, race bool) {
 		}
 	}
 	c07OneShot(w, r)
+	if !c07Flooded && !race {
+		c07Flooded = true
+		c07Flood(w)
+	}
 	if idx%16 == 0 {
 		w.Sample(map[bool]string{true: "concurrent", false: "sequential"}[concurrent], fmt.Sprintf("%d goroutines x %d calls over %d shared programs, e.g. %s", goroutines, calls, len(pool), firstN(pool[0].src, 200)))
 	}
@@ -624,5 +629,68 @@ func c07OneShot(w *W, r *rand.Rand) {
 			w.Fail("call-result-differs-from-isolated/one-shot-eval", "eval.Eval(%q, vals) = %s, expected %s (call %d with this source in a row; amount=%d flag=%v, this call's operators: over = amount > %d, scale = amount * %d)", src, o, valText(want), round+1, amount, flag, limit, factor)
 			return
 		}
+	}
+}
+
+// c07Flood: "any number of goroutines at once": 1500 goroutines, each with its own context, are inside Eval/TryEval of
+// one Expr at the same moment (an operator that blocks until all of them have arrived, like a slow remote call); every
+// call returns what it returns alone.
+var c07Flooded bool
+
+func c07Flood(w *W) {
+	const n = 1500
+	var arrived int64
+	gate := make(chan struct{})
+	cc := eval.NewConfig(eval.Optimizations(false))
+	cc.VariableKeyMap["x"] = 1
+	cc.OperatorMap["cgate"] = func(_ *eval.Ctx, p []eval.Value) (eval.Value, error) {
+		if atomic.AddInt64(&arrived, 1) == n {
+			close(gate)
+		}
+		select {
+		case <-gate:
+		case <-time.After(20 * time.Second):
+		}
+		return p[0], nil
+	}
+	e, co := compileGuard(cc, "(+ (cgate x) 1)")
+	if co.Panic != nil || co.Err != nil {
+		w.Fail("flood/compile", "Compile gave %s", co)
+		return
+	}
+	outs := make([]Outcome, n)
+	var wg sync.WaitGroup
+	for g := 0; g < n; g++ {
+		wg.Add(1)
+		go func(g int) {
+			defer wg.Done()
+			ctx := eval.NewCtxFromVars(cc, map[string]interface{}{"x": int64(g)})
+			outs[g] = guard(func() (eval.Value, error) {
+				if g%2 == 0 {
+					return e.Eval(ctx)
+				}
+				return e.TryEval(ctx)
+			})
+		}(g)
+	}
+	wg.Wait()
+	w.Evals += n
+	w.Count("flood_overlapping_evaluations", atomic.LoadInt64(&arrived))
+	if atomic.LoadInt64(&arrived) < n {
+		// not every goroutine reached the operator: the calls that did not are judged below all the same
+		w.Inc("flood_incomplete")
+	}
+	bad := 0
+	first := ""
+	for g, o := range outs {
+		if o.Panic != nil || o.Err != nil || !valEq(o.V, int64(g+1)) {
+			bad++
+			if first == "" {
+				first = fmt.Sprintf("call %d returned %s, alone it returns %d", g, o, g+1)
+			}
+		}
+	}
+	if bad > 0 {
+		w.Fail("call-result-differs-from-isolated/flood", "%d of %d calls that were inside Eval/TryEval of one Expr at the same time did not return what they return alone; %s", bad, n, first)
 	}
 }
